@@ -132,6 +132,12 @@ func (p *puppet) handle(h string, ctx *actor.ReceiveContext) {
 		if c.op == "finish" {
 			break
 		}
+		if c.op == "panic" {
+			// the behavior fails while handling its message; the supervisor decides (stack mode: Restart)
+			p.parked.Store(nil)
+			p.res <- opResult{}
+			panic("stackstash: scripted failure")
+		}
 		ctx.Err(nil)
 		switch c.op {
 		case "Become":
@@ -485,10 +491,12 @@ func (r *run) behaviour(n int, steps []step) {
 		r.buffer = steps[0].Buffer
 		steps = steps[1:]
 	}
-	opts := []actor.SpawnOption{
-		actor.WithSupervisor(supervisor.NewSupervisor(supervisor.WithAnyErrorDirective(supervisor.ResumeDirective))),
-		actor.WithLongLived(),
+	sup := supervisor.NewSupervisor(supervisor.WithAnyErrorDirective(supervisor.ResumeDirective))
+	if r.mode == "stack" {
+		// C14: a panicking behavior is restarted by its supervisor (no stash errors occur in this mode)
+		sup = supervisor.NewSupervisor(supervisor.WithDirective(&gerrors.PanicError{}, supervisor.RestartDirective))
 	}
+	opts := []actor.SpawnOption{actor.WithSupervisor(sup), actor.WithLongLived()}
 	if r.buffer {
 		opts = append(opts, actor.WithStashing())
 	}
@@ -535,6 +543,28 @@ func (r *run) behaviour(n int, steps []step) {
 			r.deliver()
 		case "Become", "BecomeStacked", "UnBecomeStacked", "UnBecome", "Stash", "Unstash", "UnstashAll":
 			r.op(cmd{op: s.Op, b: s.B})
+		case "Crash":
+			// the current handler panics; the supervisor (directive Restart) restarts the suspended actor
+			ev := map[string]any{"op": "Crash", "err": "", "h": "none", "running": true}
+			if r.cur == nil {
+				ev["err"] = "nohandler"
+			} else {
+				ev["h"] = r.cur.h
+				before := r.pid.RestartCount()
+				r.p.cmds <- cmd{op: "panic"}
+				<-r.p.res
+				r.cur = nil
+				deadline := time.Now().Add(watchdog)
+				for r.pid.RestartCount() == before || !r.pid.IsRunning() {
+					if time.Now().After(deadline) {
+						ev["err"] = "not restarted within 10s"
+						break
+					}
+					time.Sleep(50 * time.Microsecond)
+				}
+				ev["running"] = r.pid.IsRunning()
+			}
+			r.w.Raw(r.state(ev))
 		case "Restart":
 			// PID.Restart from outside, between two messages
 			r.finish()
